@@ -62,4 +62,31 @@ func init() {
 		RequiredProbes: []string{"fault:map-order-permutations", "probe:read-served-from-cache", "op:array-remove", "op:rewire"},
 		TimeUnit:       "history operations",
 	})
+
+	register(PropCfg{
+		ID:    "C10",
+		Level: "exploration",
+		Rule: "one evaluation = one simulated execution of one parallel entry point against its sequential counterpart: (pool-scans) the seven Scan/Modify *ParallelWithPoolSize functions over generated meshes with element counts around multiples of the pool size, " +
+			"(add-field) AddFieldParallel/AddFieldParallel2 vs AddField compared cell by cell over fields straddling block boundaries, (march, march-norace) MarchParallel vs March compared as triangle multisets; worker goroutines are interleaved by the seeded scheduler at hooks around every go statement, channel operation and the chunk mutex and inside user callbacks, under the race detector (except march-norace). " +
+			"distinct_nontrivial = distinct (call configuration, schedule signature) pairs in which at least two workers (or a worker and the caller) were interleaved inside the call",
+		Scenarios: []ScenCfg{
+			{Name: "pool-scans", Race: true, Chunk: 40, QuickRuns: 1600, QuickS: 30, ThoroughRuns: 400000, ThoroughS: 500, Procs: 4, DetQuick: 24, DetThorough: 120},
+			{Name: "add-field", Race: true, Chunk: 6, QuickRuns: 160, QuickS: 30, ThoroughRuns: 40000, ThoroughS: 500, Procs: 4, Workers: 12, DetQuick: 6, DetThorough: 30},
+			{Name: "march", Race: true, Chunk: 1, QuickRuns: 32, QuickS: 25, ThoroughRuns: 4000, ThoroughS: 400, Procs: 4, DetQuick: 0, DetThorough: 6},
+			{Name: "march-norace", Race: false, Chunk: 4, QuickRuns: 128, QuickS: 20, ThoroughRuns: 40000, ThoroughS: 400, Procs: 4, DetQuick: 4, DetThorough: 16},
+		},
+		Assumptions: []string{
+			"the user callback is race free by construction (writes to distinct memory per index); a race report therefore implicates the library",
+			"field data equality is exact (bit-identical float64 per cell): every cell receives exactly one addition per AddField call and attribute",
+			"marched triangles are compared as rotation-canonical triples of the 3-decimal cell keys the final weld uses, which is independent of block merge order",
+			"schedules are explored at yield-point granularity; finer atomicity violations surface through the race detector",
+			"which worker receives which block is decided by Go map iteration order in the library (not seamed); the event log does not depend on it",
+		},
+		RealVsStub: map[string]string{
+			"real": "modeling.Mesh Scan*/Modify* sequential and ParallelWithPoolSize variants, marching.MarchingCanvas AddField*, March*, sync.WaitGroup/Mutex/channels, Go runtime",
+			"stub": "detsched (who runs next), worker count (marching.VerifWorkers), user callbacks and analytic field functions",
+		},
+		RequiredProbes: []string{"probe:workers-interleaved", "probe:fewer-elements-than-workers", "probe:count-not-divisible-by-pool", "probe:field-spans-many-blocks", "probe:no-surface"},
+		TimeUnit:       "scheduler steps (one released task per step)",
+	})
 }
